@@ -23,7 +23,7 @@ from vlib import tlc, tlaval, pool, fordrun  # noqa: E402
 from vlib.verdict import Check, machinery_failure, load_known  # noqa: E402
 
 PROP = "C13"
-KINDS = {"uses": True, "calls": False, "comp": False, "ext": True}     # kind -> relation must be acyclic
+KINDS = {"uses": True, "calls": False, "comp": False, "ext": True, "files": True}     # kind -> relation must be acyclic
 
 
 def render(kind, n, rel, meta=None):
@@ -34,6 +34,25 @@ def render(kind, n, rel, meta=None):
     if kind == "uses":
         return {f"g{i}.f90": f"module g{i}\n" + md(i, "  ") + "".join(f"  use g{j}\n" for j in succ[i]) + f"  integer :: v{i}\nend module g{i}\n"
                 for i in range(1, n + 1)}
+    if kind == "files":
+        # file gI.f90 depends on file gJ.f90 through a USE of module gJ somewhere inside it: in the specification part of its
+        # module, in a module procedure, or in an internal procedure of a module procedure
+        out = {}
+        for i in range(1, n + 1):
+            lvl = {0: [], 1: [], 2: []}
+            for j in succ[i]:
+                lvl[(i + j) % 3].append(f"use g{j}\n")
+            out[f"g{i}.f90"] = (md(i, "") + f"module g{i}\n" + "".join("  " + u for u in lvl[0]) + f"  integer :: v{i}\ncontains\n  subroutine s{i}()\n"
+                                + "".join("    " + u for u in lvl[1]) + f"  contains\n    subroutine in{i}()\n" + "".join("      " + u for u in lvl[2])
+                                + f"    end subroutine in{i}\n  end subroutine s{i}\nend module g{i}\n")
+        return out
+    if kind == "tbcalls":
+        # calls through generic type-bound names that have exactly one specific: p_i -> box%g_j -> p_j
+        head = ("module tb\n  type :: box\n    integer :: v\n  contains\n    procedure :: " + ", ".join(f"p{i}" for i in range(1, n + 1)) + "\n"
+                + "".join(f"    generic :: g{i} => p{i}\n" for i in range(1, n + 1)) + "  end type box\ncontains\n")
+        body = "".join(f"  subroutine p{i}(self)\n" + md(i, "    ") + "    class(box) :: self\n" + "".join(f"    call self%g{j}()\n" for j in succ[i])
+                       + f"  end subroutine p{i}\n" for i in range(1, n + 1))
+        return {"tb.f90": head + body + "end module tb\n"}
     if kind == "calls":
         body = "".join(f"  subroutine p{i}()\n" + md(i, "    ") + "".join(f"    call p{j}()\n" for j in succ[i]) + f"  end subroutine p{i}\n" for i in range(1, n + 1))
         return {"procs.f90": f"module procs\ncontains\n{body}end module procs\n"}
@@ -47,12 +66,15 @@ def render(kind, n, rel, meta=None):
     raise ValueError(kind)
 
 
-_EDGE = re.compile(r'^\s*"?([\w~]+)"?\s*->\s*"?([\w~]+)"?', re.M)
+_EDGE = re.compile(r'^\s*"?([\w~.]+)"?\s*->\s*"?([\w~.]+)"?', re.M)
 _NUM = re.compile(r"(\d+)$")
+_FNUM = re.compile(r"g(\d+)\.f90$")
 
 
 def _num(ident):
-    m = _NUM.search(ident)
+    if ident.startswith("none~g"):                  # the node of a type-bound generic name
+        return 100 + int(_NUM.search(ident).group(1))
+    m = _FNUM.search(ident) or _NUM.search(ident)
     return int(m.group(1)) if m else -1
 
 
@@ -113,7 +135,7 @@ def evaluate(case):
         depth_, limit_ = 10000, 1000000000
     else:
         files = render(kind, n, rel)
-        depth_, limit_ = depth, limit
+        depth_, limit_ = (10000, 1000000000) if kind == "tbcalls" else (depth, limit)
     try:
         project, gm = build_graphs(files, depth_, limit_)
     except Exception as ex:
@@ -121,13 +143,35 @@ def evaluate(case):
     if kind == "uses":
         ents = {_num(m.name): m for m in project.modules}
         attr = ("usesgraph", "usedbygraph")
+    elif kind == "files":
+        ents = {_num(f.name): f for f in project.files}
+        attr = ("efferentgraph", "afferentgraph")
     elif kind == "calls":
-        ents = {_num(p.name): p for p in project.procedures}
+        ents = {_num(p.name): p for p in project.procedures if re.fullmatch(r"p\d+", p.name)}
         attr = ("callsgraph", "calledbygraph")
     else:
         ents = {_num(t.name): t for t in project.types}
         attr = ("inhergraph", "inherbygraph")
     bad = []
+    if kind == "tbcalls":
+        ents = {_num(p.name): p for p in project.procedures if re.fullmatch(r"p\d+", p.name)}
+        for r in case["refs"]:
+            e = ents.get(r["root"])
+            g = getattr(e, "callsgraph", None) if e is not None else None
+            reach = set(r["fwd"]["nodes"])
+            shown = {(a, b) for (a, b) in rel if a in reach}
+            want_nodes = reach | {100 + b for (_, b) in shown}
+            want_edges = {(a, 100 + b) for (a, b) in shown} | {(100 + b, b) for (_, b) in shown}
+            if g is None:
+                if shown:
+                    bad.append(f"root {r['root']} callsgraph: no graph object")
+                continue
+            nodes, edges, _ = graph_obs(g)
+            if nodes != want_nodes:
+                bad.append(f"root {r['root']} callsgraph (type-bound generics = 100+j): nodes {sorted(nodes)}, the calls reach {sorted(want_nodes)}")
+            if edges != want_edges:
+                bad.append(f"root {r['root']} callsgraph (type-bound generics = 100+j): edges {sorted(edges)}, the calls are {sorted(want_edges)}")
+        return {"bad": bad, "files": files if bad else None, "events": len(REC)}
     for r in case["refs"]:
         e = ents.get(r["root"])
         if e is None:
@@ -137,7 +181,8 @@ def evaluate(case):
             ref = r[direction]
             g = getattr(e, a, None)
             if g is None:
-                bad.append(f"root {r['root']} {a}: no graph object")
+                if not (kind == "files" and set(ref["nodes"]) == {r["root"]}):      # a file without dependencies has no dependency graph
+                    bad.append(f"root {r['root']} {a}: no graph object")
                 continue
             nodes, edges, table = graph_obs(g)
             want_nodes = set(ref["nodes"])
@@ -231,11 +276,15 @@ def run(tier, seed, ck: Check):
         acy = generate(scratch, 4, True, ck, "a")
         rng = random.Random(seed)
         cases = []
+        dmax, lmax = max(c["depth"] for c in cyc), max(c["limit"] for c in cyc)
         for c in cyc:
             for kind in ("calls", "comp"):
                 cases.append(dict(c, kind=kind, n=n))
+            if c["depth"] == dmax and c["limit"] == lmax:       # unlimited graphs only: a call through a binding takes two hops
+                cases.append(dict(c, kind="tbcalls", n=n))
         for c in acy:
             cases.append(dict(c, kind="uses", n=4))
+            cases.append(dict(c, kind="files", n=4))
             outdeg = {}
             for a, b in c["rel"]:
                 outdeg[a] = outdeg.get(a, 0) + 1
@@ -247,7 +296,7 @@ def run(tier, seed, ck: Check):
         elif len(cases) > 120000:
             cases = rng.sample(cases, 120000)
         for c in cases:
-            c["per_entity"] = zlib.crc32(json.dumps([c["rel"], c["kind"]]).encode()) % 4 == 0
+            c["per_entity"] = zlib.crc32(json.dumps([c["rel"], c["kind"]]).encode()) % 4 == 0 and c["kind"] != "tbcalls"
         results = pool.pmap(evaluate, cases, chunksize=20)
         nev = 0
         for c, r in zip(cases, results):
@@ -260,7 +309,7 @@ def run(tier, seed, ck: Check):
                              detail=b, extra={"files": r["files"]})
         # `graph: false` on one entity (every 5th case, full limits)
         fcases = [dict(kind=c["kind"], n=c["n"], rel=c["rel"], k=1 + zlib.crc32(json.dumps(c["rel"]).encode()) % c["n"])
-                  for c in cases[::5] if c["depth"] == 3 and c["limit"] == 99]
+                  for c in cases[::5] if c["depth"] == 3 and c["limit"] == 99 and c["kind"] not in ("files", "tbcalls")]
         for c, r in zip(fcases, pool.pmap(evaluate_false, fcases, chunksize=20)):
             ck.count()
             ck.nontrivial_case(json.dumps(["graph-false", c["kind"], c["rel"], c["k"]]))
